@@ -208,13 +208,17 @@ struct HsObs {
 
 async fn send_cut(s: &mut TcpStream, msg: &[u8], base: usize, cuts: &[usize]) -> std::io::Result<()> {
     let mut start = 0;
+    // the client gives a local handshake 30 s: however many pieces there are, all of them are on their way within 15 s
+    // (a handshake dribbled over more than that is legitimately timed out - not a matter of segmentation)
+    let pieces = cuts.iter().filter(|c| **c > base && **c < base + msg.len()).count().max(1) as u64;
+    let gap = Duration::from_millis(100.min(15_000 / pieces).max(1));
     for (i, _) in msg.iter().enumerate() {
         let abs = base + i;
         if i > start && cuts.contains(&abs) {
             s.write_all(&msg[start..i]).await?;
             start = i;
             // let the client consume the piece and go quiet
-            tokio::time::sleep(Duration::from_millis(100)).await;
+            tokio::time::sleep(gap).await;
         }
     }
     s.write_all(&msg[start..]).await
